@@ -51,7 +51,12 @@ class SeqCheck:
         for di, dargs in enumerate(self.drivers[tier]):
             trace = os.path.join(work, "trace%d.ndjson" % di)
             stats = os.path.join(work, "stats%d.json" % di)
-            c.run_driver(binary, ["seq", "-out", trace, "-stats", stats, "-seed", str(c.seed() * 1000 + di)] + dargs)
+            try:
+                c.run_driver(binary, ["seq", "-out", trace, "-stats", stats, "-seed", str(c.seed() * 1000 + di)] + dargs, crash_ok=True)
+            except c.ServerCrash as e:
+                violation = c.crash_violation(prop, str(di), e, trace)
+                violation["driver"] = dargs
+                break
             st = json.load(open(stats))
             sub = os.path.join(work, "v%d" % di)
             os.makedirs(sub)
